@@ -520,16 +520,17 @@ func resetGlobalErr(scope *scope) {
 }
 
 func globalErr(scope *scope, isErr bool, msg string) {
-	val, ok := scope.get("err")
-	if !ok {
+	if _, ok := scope.get("err"); !ok {
 		panic("cannot find global err")
 	}
-	val.Set(&boolVal{V: isErr})
-	val, ok = scope.get("errmsg")
-	if !ok {
+	if _, ok := scope.get("errmsg"); !ok {
 		panic("cannot find global errmsg")
 	}
-	val.Set(&stringVal{V: msg})
+	// Store new values instead of changing the current ones in place:
+	// values that were read earlier, e.g. an operand or a returned errmsg,
+	// must not change afterwards.
+	scope.update("err", &boolVal{V: isErr})
+	scope.update("errmsg", &stringVal{V: msg})
 }
 
 var typeofDecl = &parser.FuncDefStmt{
